@@ -234,6 +234,11 @@ func runC04(c *Ctx, r *Report) {
 	c04r7(c, r)
 	c04r8(c, r)
 	c04r9(c, r)
+	c04r10(c, r)
+	c04r11(c, r)
+	c04r12(c, r)
+	c06r8(c, r) // the pass-through merger must know how many items it has
+	c13r6(c, r) // a snapshot still being read must not have its items shifted under it
 	c08r6(c, r) // unsorted order must not depend on an earlier sorted search
 }
 
@@ -920,4 +925,92 @@ func c04r9(c *Ctx, r *Report) {
 		})
 	}
 	r.floor("assignments of Matcher.sort / Matcher.revision in Loop", n, 2)
+}
+
+// c04r10: whether results are sorted is the user's choice.
+func c04r10(c *Ctx, r *Report) {
+	l := c.L
+	r.rule("C04-R10", "D (provenance of the sort switch)", "P1",
+		"every value stored into Matcher.sort derives from the user's sort option: the `sort` parameter of NewMatcher (which Run computes from Options.Sort), MatchRequest.sort, or an expression that has one of them as an operand — never from the pattern alone",
+		"--no-sort is ignored on some path: results come out in rank order instead of input order (reversed under --tac)")
+	fSort := l.Field("fzf", "Matcher", "sort")
+	fReqSort := l.Field("fzf", "MatchRequest", "sort")
+	fOptSort := l.Field("fzf", "Options", "Sort")
+	nm := l.Fn("fzf", "NewMatcher")
+	if fSort == nil || fReqSort == nil || fOptSort == nil || nm == nil {
+		r.unest("anchors", token.NoPos, nil, "anchors Matcher.sort / MatchRequest.sort / Options.Sort / NewMatcher", "cannot resolve")
+		return
+	}
+	var sortParam *ssa.Parameter
+	for _, p := range nm.Params {
+		if p.Name() == "sort" {
+			sortParam = p
+		}
+	}
+	n := 0
+	for _, fn := range l.AllFuncs() {
+		if fn.Pkg != l.pkg("fzf") {
+			continue
+		}
+		eachInstr(fn, func(in ssa.Instruction) {
+			st, ok := in.(*ssa.Store)
+			if !ok {
+				return
+			}
+			if f, _ := fieldOf(st.Addr); f != fSort {
+				return
+			}
+			n++
+			okSrc := false
+			var seen = map[ssa.Value]bool{}
+			var walk func(v ssa.Value, d int)
+			walk = func(v ssa.Value, d int) {
+				if seen[v] || d > 12 || okSrc {
+					return
+				}
+				seen[v] = true
+				if sortParam != nil && v == ssa.Value(sortParam) {
+					okSrc = true
+					return
+				}
+				if f, _ := loadedField(v); f == fReqSort || f == fOptSort {
+					okSrc = true
+					return
+				}
+				switch x := v.(type) {
+				case *ssa.Phi:
+					// a && b materialised: the conditions that choose the edges matter too
+					for i, e := range x.Edges {
+						walk(e, d+1)
+						if len(x.Block().Preds) > i {
+							p := x.Block().Preds[i]
+							if iff, ok := p.Instrs[len(p.Instrs)-1].(*ssa.If); ok {
+								walk(iff.Cond, d+1)
+							}
+						}
+					}
+				case *ssa.BinOp:
+					walk(x.X, d+1)
+					walk(x.Y, d+1)
+				case *ssa.UnOp:
+					// a local variable / captured cell: follow its stores
+					if x.Op == token.MUL {
+						if cell := cellRoot(x.X); cell != nil {
+							for _, s2 := range storesToCell(cell) {
+								walk(s2.Val, d+1)
+							}
+						}
+					} else {
+						walk(x.X, d+1)
+					}
+				case *ssa.FieldAddr:
+				case *ssa.Extract:
+					walk(x.Tuple, d+1)
+				}
+			}
+			walk(st.Val, 0)
+			r.check(okSrc, fmt.Sprintf("%s:Matcher.sort <- %s", relName(fn), describe(st.Val)), st.Pos(), fn, "the stored value depends on the user's sort option", "Matcher.sort is set from something that does not involve the sort option")
+		})
+	}
+	r.floor("assignments of Matcher.sort", n, 3)
 }
